@@ -17,8 +17,21 @@ def build(case):
     kind = case["type"]
     nsd = case["ns"]
     ns = dendropy.TaxonNamespace(label=nsd.get("label"))
-    for k in range(nsd["n"]):
+    hist = nsd.get("history") or []
+    nrem = sum(1 for op in hist if op[0] == "remove")
+    for k in range(nsd["n"] + nrem):
         ns.new_taxon("t%d" % k)
+    # a namespace with a history: after sort / reverse / removal of a non-final taxon the list position of a
+    # taxon is no longer its accession index (the bit it has in every bipartition bitmask)
+    for op in hist:
+        if op[0] == "sort_rev":
+            ns.sort(key=lambda t: t.label, reverse=True)
+        elif op[0] == "reverse":
+            ns.reverse()
+        elif op[0] == "remove" and len(ns._taxa) > 1:
+            ns.remove_taxon(ns._taxa[op[1] % (len(ns._taxa) - 1)])
+        elif op[0] == "remove" and ns._taxa:
+            ns.remove_taxon(ns._taxa[0])
     if kind == "ns":
         root = ns
     elif kind == "tree":
@@ -555,3 +568,57 @@ def summary(root, thin=False, shallow=False):
                                    "_taxon_sequence_map", "character_types", "comments", "character_subsets",
                                    "state_alphabets", "_default_state_alphabet", "_annotations"})]
     return out
+
+
+# ----------------------------------------------------------------------------------------------
+# taxon <-> bit assignment of a copied namespace (independent of the graph dump)
+# ----------------------------------------------------------------------------------------------
+
+def ns_index_report(root, cp):
+    """When the copy has a namespace object of its own: every copied taxon has the accession index and the
+    bitmask its source has in the source's namespace, and on every tree that carries a bipartition encoding
+    the leafset bitmask of each edge names, through the copy's namespace, the copies of the taxa it names in
+    the source.  -> list of discrepancies (strings)."""
+    out = []
+    ns0, ns1 = namespace_of(root), namespace_of(cp)
+    if ns0 is None or ns1 is None or ns0 is ns1:
+        return out
+    t0, t1 = list(ns0._taxa), list(ns1._taxa)
+    if len(t0) != len(t1):
+        return ["namespace sizes %d / %d" % (len(t0), len(t1))]
+    for i, (a, c) in enumerate(zip(t0, t1)):
+        # accession_index and bitmask_taxa_list only read the look-up tables (taxon_bitmask would fill a cache:
+        # the observation must not write into either side); the bitmask of a taxon is 1 << accession index
+        try:
+            ia, ic = ns0.accession_index(a), ns1.accession_index(c)
+        except Exception as e:       # a taxon of the copy that its own namespace cannot look up
+            out.append("taxon #%d %r: %s: %s" % (i, a.label, type(e).__name__, e))
+            continue
+        if ia != ic:
+            out.append("taxon #%d %r: accession index %d in the source's namespace, %d in the copy's (bitmask %d / %d)"
+                       % (i, a.label, ia, ic, 1 << ia, 1 << ic))
+    pos0 = {id(t): i for i, t in enumerate(t0)}
+    pos1 = {id(t): i for i, t in enumerate(t1)}
+    for ti, (tr0, tr1) in enumerate(zip(trees_of(root), trees_of(cp))):
+        n0s, n1s = list(tr0.preorder_node_iter()), list(tr1.preorder_node_iter())
+        if len(n0s) != len(n1s):
+            continue
+        for ni, (a, c) in enumerate(zip(n0s, n1s)):
+            b0 = getattr(a.edge, "_bipartition", None)
+            b1 = getattr(c.edge, "_bipartition", None)
+            if b0 is None or b1 is None:
+                continue
+            try:
+                named0 = sorted(pos0[id(t)] for t in ns0.bitmask_taxa_list(b0.leafset_bitmask))
+            except Exception:
+                continue             # the source's own encoding is stale (e.g. after a removal): nothing to carry over
+            try:
+                named1 = sorted(pos1[id(t)] for t in ns1.bitmask_taxa_list(b1.leafset_bitmask))
+            except Exception as e:
+                out.append("tree %d node %d: leafset bitmask %d of the copy: %s: %s"
+                           % (ti, ni, b1.leafset_bitmask, type(e).__name__, e))
+                continue
+            if named0 != named1:
+                out.append("tree %d node %d: leafset bitmask names taxa #%s in the source, #%s in the copy"
+                           % (ti, ni, named0, named1))
+    return out[:6]
